@@ -423,7 +423,7 @@ def _empty_scope_fallthrough(fh, i, p_scopes, p_default, p_cur):
     if not (hirq.calls(el, r"Origin as std::default::Default>::default$|Origin::default$|Origin::new$")):
         return False
     stmts = list(fh["body"].get("stmts") or [])
-    at = [n for n, s_ in enumerate(stmts) if s_.get("k") == "let" and s_.get("init") is not None and find_all(s_["init"], lambda z: z is i)]
+    at = [n for n, s_ in enumerate(stmts) if s_.get("k") == "let" and s_.get("init") is not None and find_all(s_["init"], lambda z: z.get("k") == "if" and z.get("cond") is i.get("cond"))]
     if len(at) != 1 or find_all({"k": "blk", "stmts": stmts[:at[0]]}, lambda z: z.get("k") == "ret"):
         return False
     plain = []
@@ -453,7 +453,20 @@ def trust_rules(fb, ctx):
     params = [p.get("name") for p in fh["params"]]
     p_scopes, p_default, p_cur, p_map = params[0], params[1], params[2], params[3]
     # empty-scope branch
-    ifs = [i for i in find_all(fh["body"], lambda z: z.get("k") == "if") if mcalls(i["cond"], r"::is_empty$") and is_local(strip(strip(i["cond"])["recv"]), p_scopes)]
+    def _empty_test(i):
+        """(if node seen as `if scopes.is_empty() {A} else {B}`) - `if !scopes.is_empty() {B} else {A}` is the same test with the branches swapped"""
+        c = strip(i["cond"])
+        neg = False
+        if isinstance(c, dict) and c.get("k") == "unary" and c.get("op") == "Not":
+            c, neg = strip(c["a"]), True
+        if not (isinstance(c, dict) and c.get("k") == "mcall" and c.get("name") == "is_empty" and is_local(strip(c.get("recv")), p_scopes)):
+            return None
+        if neg:
+            if i.get("else") is None:
+                return None
+            return {**i, "then": i["else"], "else": i["then"]}
+        return i
+    ifs = [t for t in (_empty_test(i) for i in find_all(fh["body"], lambda z: z.get("k") == "if") if mcalls(i["cond"], r"::is_empty$")) if t is not None]
     ok = False
     if len(ifs) == 1:
         th = ifs[0]["then"]
